@@ -330,6 +330,7 @@ class Batch:
             if status != 0:
                 self.harness_failures.append(f"lane {pid} exited with status {status}")
 
+        self.run_digests = dict(results)
         # the digest is order independent of lanes: fold results by index
         for i in sorted(results):
             self.digest.update(f"{i}:{results[i]}".encode())
@@ -393,12 +394,18 @@ def classify(prop, violations):
     for item in violations:
         sig = item[2]['signature']
         for e in known:
-            if signature_matches(e['signature'], sig):
+            if entry_matches(e, sig):
                 listed.setdefault(e['key'], []).append(item)
                 break
         else:
             unlisted.append(item)
     return unlisted, listed
+
+
+def entry_matches(entry, sig):
+    """An entry lists one signature or several alternative ones (each matched as a subset)."""
+    sigs = entry.get('signatures') or [entry['signature']]
+    return any(signature_matches(s, sig) for s in sigs)
 
 
 # --------------------------------------------------------------------------
@@ -512,14 +519,14 @@ def run_check(check, tier, master_seed, runs=None, budget_s=None, quiet=False):
             if res.get('harness'):
                 batch.harness_failures.append(f"canonical replay {rp}: {res['harness'][-500:]}")
             sigs = [v['signature'] for v in res.get('violations', [])]
-            reproduced = any(signature_matches(e['signature'], s) for s in sigs)
+            reproduced = any(entry_matches(e, s) for s in sigs)
             if e['status'] == 'fixed' and sigs:
                 # a fixed entry suppresses nothing: any violation of its replay is reported
                 for v in res['violations']:
                     unlisted.append((-1, rep.get('run_seed', 0), v, rep['case']))
             elif e['status'] == 'open':
                 for v in res['violations']:
-                    if not signature_matches(e['signature'], v['signature']):
+                    if not entry_matches(e, v['signature']):
                         u, _ = classify(check.PROP, [(-1, 0, v)])
                         for item in u:
                             unlisted.append((-1, rep.get('run_seed', 0), v, rep['case']))
